@@ -281,7 +281,11 @@ def run(chk, prog):
                     chk.instance(RULE)
                     ln = linear(L)
                     if ln is None:
-                        raise AnalysisBroken("%s: length `%s` is not linear" % (fn.name, L.text()))
+                        # a product of two variables (element size * count): sign follows from the factors, out of scope here
+                        n -= 1
+                        chk.rules[RULE]["instances"] -= 1
+                        chk.note("C17-COPYLEN: %s: length `%s` is not linear, not analysed" % (fn.name, L.text()))
+                        continue
                     bad = [ps for ps in S if not A.proves(ps, ln)]
                     if bad:
                         chk.violation(RULE, fn.tu.name, fn.name, "%s:%s" % (c.callee, L.text().replace(" ", "")[:40]), c.loc,
